@@ -56,6 +56,18 @@ def cases(thorough):
                 for s1 in ("3", "0d"):
                     for side, route in (("left", "operator"), ("right", "numpy"), ("left", "numpy")) + ((("right", "operator"),) if kind.startswith(("bool", "py-bool", "npfloat")) else ()):
                         yield {"block": "cmp_bare", "op": op, "u1": u1, "d1": "f8", "s1": s1, "kind": kind, "side": side, "route": route}
+    # a comparison that is refused (shapes that cannot be broadcast, incompatible units, an operand that is not a number), followed in the
+    # same process by comparisons that must be answered as ever: a refusal leaves nothing behind
+    for refusal in ("shapes", "shapes-numpy", "units", "shapes-inplace-add"):
+        for op in CMP:
+            for route in ("operator", "numpy"):
+                for (u1, u2) in (("m", "cm"), ("km", "m"), ("percent", "dimensionless")):
+                    yield {"block": "after_refusal", "refusal": refusal,
+                           "then": {"block": "cmp", "op": op, "u1": u1, "u2": u2, "d1": "f8", "s1": "3", "s2": "3", "kind": "Array", "route": route}}
+                yield {"block": "after_refusal", "refusal": refusal,
+                       "then": {"block": "cmp_bare", "op": op, "u1": "percent", "d1": "f8", "s1": "3", "kind": "nd", "side": "left", "route": route}}
+                yield {"block": "after_refusal", "refusal": refusal,
+                       "then": {"block": "cmp_bare", "op": op, "u1": "m", "d1": "f8", "s1": "3", "kind": "nd", "side": "left", "route": route}}
     for op in ("and", "or", "xor", "not"):
         for s in ("4", "2x2", "0d"):
             for kind in ("Array", "nd", "bool"):
@@ -68,6 +80,30 @@ def run_case(acc, idx, c):
 
     A_ = osyris.Array
     blk = c["block"]
+    if blk == "after_refusal":
+        a3, b2, t3 = A_(np.array([1.0, 2.0, 3.0]), unit="m"), A_(np.array([150.0, 150.0]), unit="cm"), A_(np.array([1.0, 2.0, 3.0]), unit="s")
+        try:
+            if c["refusal"] == "shapes":
+                a3 < b2
+            elif c["refusal"] == "shapes-numpy":
+                np.less(a3, b2)
+            elif c["refusal"] == "units":
+                a3 < t3
+            else:
+                a3 += b2
+            acc.violation("C07:comparison-of-unbroadcastable-or-incompatible-operands-answered:" + c["refusal"], idx, c, {})
+        except Exception:
+            pass
+        before = set(acc.violations)
+        out = run_case(acc, idx, c["then"])
+        for sig in set(acc.violations) - before:
+            new = sig + ":after-a-refused-operation"
+            acc.violations[new] = acc.violations.pop(sig)
+            acc.vcount[new] = acc.vcount.pop(sig)
+            for _, rec in acc.violations[new]:
+                rec["sig"] = new
+                rec["case"] = c
+        return out
     if blk in ("cmp", "cmp_int", "cmp_bare"):
         op = NP_CMP[c["op"]] if c.get("route") == "numpy" else CMP[c["op"]]
         s1i, d1i, t1i = _arr.uinfo(c["u1"])
